@@ -42,9 +42,10 @@ MAX_PATHS = 64
 
 
 CALLS = '@calls'
+RETURN = '@return'
 
 
-def paths(stmts, env=None, pure_calls=(), effects=False):
+def paths(stmts, env=None, pure_calls=(), effects=False, opaque=False):
   """[(conds, env, ended)] for every path through `stmts`.  conds: [(test expr in entry terms, polarity)];
   env: location text -> expr in entry terms; ended: 'fall' | 'continue' | 'return' | 'break'."""
   out = []
@@ -96,6 +97,9 @@ def paths(stmts, env=None, pure_calls=(), effects=False):
         walk(list(st.orelse) + todo, env, conds + [(test, False)])
         return
       if isinstance(st, (ast.Continue, ast.Break, ast.Return, ast.Raise)):
+        if isinstance(st, ast.Return) and st.value is not None:
+          env = dict(env)
+          env[RETURN] = subst(st.value, dict((k, v) for k, v in env.items() if not k.startswith('@')))
         out.append((conds, env, type(st).__name__.lower()))
         if len(out) > MAX_PATHS:
           raise PathError('too many paths')
@@ -107,6 +111,16 @@ def paths(stmts, env=None, pure_calls=(), effects=False):
         env = dict(env)
         prev = env.get(CALLS)
         env[CALLS] = ast.Tuple(elts=(list(prev.elts) if prev is not None else []) + [subst(st.value, dict((k, v) for k, v in env.items() if k != CALLS))], ctx=ast.Load())
+        continue
+      if opaque:
+        # a statement the engine does not read: every location it may write is forgotten (a later read of it is a fresh symbol,
+        # written as the location itself), exits inside it are not followed
+        env = dict(env)
+        for x in ast.walk(st):
+          if isinstance(x, (ast.Name, ast.Attribute, ast.Subscript)) and isinstance(getattr(x, 'ctx', None), (ast.Store, ast.Del)):
+            env.pop(norm_text(x), None)
+            for k in [k for k in env if k.startswith(norm_text(x) + '.') or k.startswith(norm_text(x) + '[')]:
+              env.pop(k)
         continue
       raise PathError('unsupported statement: %s' % norm_text(st)[:60])
     out.append((conds, env, 'fall'))
